@@ -16,6 +16,7 @@ import (
 
 	"verif/internal/harness"
 	"verif/internal/pbfgen"
+	"verif/internal/pbfscan"
 )
 
 func TestMain(m *testing.M) { harness.Main(m, "C01") }
@@ -99,6 +100,11 @@ func check(c Case) error {
 	if d := pbfgen.DiffHeader(h, c.File.Header.Expected()); d != "" {
 		return harness.Failf("C01/header-field", "header: %s", d)
 	}
+	// the elements are independent values: appending to the tag, node or member
+	// list of one returned object changes no other returned object
+	if d := pbfgen.AppendIndependence(got); d != "" {
+		return harness.Failf("C01/results-share-memory", "%s", d)
+	}
 	return nil
 }
 
@@ -178,5 +184,50 @@ func TestBigBlobs(t *testing.T) {
 		},
 		Inflight: true,
 		NoReplay: true,
+	})
+}
+
+// ---------------------------------------------------------------- another scanner alive at the same time
+
+type TwoCase struct {
+	A, B           *pbfgen.File
+	ProcsA, ProcsB int
+	StallBlock     int
+	OneP           bool
+}
+
+func TestOtherScannerAlive(t *testing.T) {
+	harness.Run(t, harness.Spec[TwoCase]{
+		Name: "other-scanner-alive", N: 60,
+		Rule: "the scan of file A does not depend on other scanners in the process: A's reader stalls one byte short of the end of a drawn data block while a second scanner reads file B to its end, then A finishes (half of the cases with GOMAXPROCS=1 and the collector off); oracle = both sequences equal their models; non-trivial = every case",
+		Gen: func(t *rapid.T) TwoCase {
+			return TwoCase{
+				A:          pbfgen.GenFile(t, pbfgen.Opt{MinBlocks: 1, MaxBlocks: 5, NonEmpty: true}),
+				B:          pbfgen.GenFile(t, pbfgen.Opt{MinBlocks: 1, MaxBlocks: 5, NonEmpty: true}),
+				ProcsA:     rapid.SampledFrom([]int{1, 1, 2, 5}).Draw(t, "procsA"),
+				ProcsB:     rapid.SampledFrom([]int{1, 1, 2, 5}).Draw(t, "procsB"),
+				StallBlock: rapid.IntRange(0, 4).Draw(t, "stallBlock"),
+				OneP:       rapid.Bool().Draw(t, "oneP"),
+			}
+		},
+		Check: func(c TwoCase) error {
+			encA, encB := c.A.Encode(), c.B.Encode()
+			wantA, _ := c.A.Expected()
+			wantB, _ := c.B.Expected()
+			stall := encA.Blocks[c.StallBlock%len(encA.Blocks)].End - 1
+			d, hang := pbfscan.Two(encA.Data, wantA, c.ProcsA, stall, encB.Data, wantB, c.ProcsB, c.OneP)
+			if hang {
+				return harness.Failf("C01/hang", "%s", d)
+			}
+			if d != "" {
+				return harness.Failf("C01/other-scanner-alive", "%s", d)
+			}
+			return nil
+		},
+		Classify: func(c TwoCase) (bool, []string) { return true, nil },
+		Describe: func(c TwoCase) any {
+			return map[string]any{"blocks_a": len(c.A.Blocks), "blocks_b": len(c.B.Blocks), "procs_a": c.ProcsA, "procs_b": c.ProcsB, "stall_block": c.StallBlock, "one_p": c.OneP}
+		},
+		Inflight: true,
 	})
 }
